@@ -34,7 +34,7 @@ def run_in_subprocess(task: dict, hashseed: str) -> dict:
 
 def twin_same(task: dict) -> str:
     """C19: same schedule in fresh processes under different hash seeds, and after unrelated activity"""
-    base = {"tid": task["tid"], "tt": task["tt"], "ops": task["ops"], "cfg": task.get("cfg")}
+    base = {"tid": task["tid"], "tt": task["tt"], "ops": task["ops"], "cfg": task.get("cfg"), "names": task.get("names")}
     a = run_in_subprocess(base, "0")
     out = []
     for k, hs in enumerate(task["hashseeds"]):
